@@ -29,6 +29,7 @@ type Fn struct {
 	parent map[ast.Node]ast.Node
 	// Subst overrides the canonical name of selected objects (e.g. "$res").
 	Subst map[types.Object]string
+	prod  *Product
 }
 
 // Vertex kinds.
